@@ -9,6 +9,7 @@ RF = dict(headers=40, push=6, data=22, settings=1, window_update=3, ping=0.3, rs
           continuation=1, altsvc=1, unknown=0.5, bad=0.5)
 
 F1 = 'a client reports RequestReceived (for HEADERS on a stream id the peer may open that was never promised)'
+F2 = 'a server reports ResponseReceived on a stream it opened itself with send_headers (consequence of F-C08-1)'
 NAMES = {1: 'RequestReceived', 2: 'ResponseReceived', 3: 'TrailersReceived', 4: 'InformationalResponseReceived', 5: 'DataReceived',
          10: 'StreamEnded', 11: 'StreamReset', 12: 'PushedStreamReceived', 14: 'PriorityUpdated'}
 
@@ -62,7 +63,8 @@ def oracle(p):
             if client and k == 1:
                 V(F1, {'stream': sid})
             if not client and k in (2, 4, 12):
-                V('a server reports %s' % NAMES[k], {'stream': sid})
+                opened_by_us = any(o[0] == 'SendHeaders' and o[1] == sid and q[0][0] == 0 for o, q in zip(p['ops'][:i], p['parts'][:i]))
+                V(F2 if (opened_by_us and k == 2) else 'a server reports %s' % NAMES[k], {'stream': sid})
             if s['ended'] and k in (1, 2, 3, 4, 5, 10):
                 V('%s after StreamEnded on the same stream' % NAMES[k], {'stream': sid})
             ph = s['phase']
@@ -89,7 +91,7 @@ def oracle(p):
 
 
 def finding_of(v):
-    return 'F-C07-1' if v['rule'] == F1 else None
+    return 'F-C07-1' if v['rule'] == F1 else 'F-C07-2' if v['rule'] == F2 else None
 
 
 def scenarios(run):
